@@ -403,6 +403,9 @@ func propC08(w *World, r *Report) {
 	// can never reject a frame and thereby change recording boundaries
 	checkParsers(w, r, "N7")
 	checkSettingsImmutable(w, r, "N1", "ThermalMotion:EdgePixels", "Config:Motion") // edge-pixels as configured
+	if k8, err := findKernels(d); err == nil {
+		checkThresholdInit(w, r, d, k8, "N4") // "at or below temp-thresh": the clamp value is the configured threshold
+	}
 }
 
 type rowRef struct {
@@ -557,26 +560,7 @@ func propC07(w *World, r *Report) {
 			r.Check(a.Frame == ssa.Value(kk.fn.Params[3]), "K2", kk.fn.Name()+": result goes to the third frame argument at the same position", w.InstrPos(a.Instr), frameName(e, a.Frame))
 		}
 	}
-	// the clamp value with a fixed threshold is the configured temp-thresh, unmodified
-	{
-		init := "<unset>"
-		fi := d.Role["tempThresh"]
-		// value stored by the constructor (directly or through a call)
-		ce := newTermEnv(w)
-		for _, b := range d.Ctor.Blocks {
-			for _, in := range b.Instrs {
-				if st, ok := in.(*ssa.Store); ok {
-					if fa, ok := st.Addr.(*ssa.FieldAddr); ok && isPtrTo(fa.X.Type(), d.T) && fa.Field == fi {
-						init = ce.termOf(st.Val).String()
-					}
-				}
-				if c, ok := in.(*ssa.Call); ok && c.Call.StaticCallee() == k.calcThresh {
-					init = "computed by " + k.calcThresh.Name() + "(" + ce.termOf(c.Call.Args[1]).String() + ") — subject to the dynamic min/max limits"
-				}
-			}
-		}
-		r.Check(init == "config.ThermalMotion.TempThresh"+cfgMotion, "K2", "the threshold both values are raised to starts as the configured temp-thresh, unmodified", w.Pos(d.Ctor.Pos()), init)
-	}
+	checkThresholdInit(w, r, d, k, "K2")
 	// signed intermediate
 	for _, fn := range d.Funcs {
 		for _, b := range fn.Blocks {
@@ -1008,4 +992,26 @@ func isRangeLoopGuard(g Guard) bool {
 	t := g.Cond
 	return g.Pos && t.Op == "lt" && len(t.Args) == 2 && t.Args[0].Op == "rangeidx" && t.Args[1].Op == "len" &&
 		len(t.Args[0].Args) == 1 && len(t.Args[1].Args) == 1 && t.Args[0].Args[0].String() == t.Args[1].Args[0].String()
+}
+
+// checkThresholdInit: with a fixed threshold the value every pixel is raised to is the configured temp-thresh itself:
+// the constructor stores it unmodified and does not run it through the dynamic-threshold computation (whose min/max
+// limits belong to dynamic thresholding only).
+func checkThresholdInit(w *World, r *Report, d *detInfo, k *kernels, rule string) {
+	init := "<unset>"
+	fi := d.Role["tempThresh"]
+	ce := newTermEnv(w)
+	for _, b := range d.Ctor.Blocks {
+		for _, in := range b.Instrs {
+			if st, ok := in.(*ssa.Store); ok {
+				if fa, ok := st.Addr.(*ssa.FieldAddr); ok && isPtrTo(fa.X.Type(), d.T) && fa.Field == fi {
+					init = ce.termOf(st.Val).String()
+				}
+			}
+			if c, ok := in.(*ssa.Call); ok && c.Call.StaticCallee() == k.calcThresh {
+				init = "computed by " + k.calcThresh.Name() + "(" + ce.termOf(c.Call.Args[1]).String() + ") — subject to the dynamic min/max limits"
+			}
+		}
+	}
+	r.Check(init == "config.ThermalMotion.TempThresh"+cfgMotion, rule, "the threshold both values are raised to starts as the configured temp-thresh, unmodified", w.Pos(d.Ctor.Pos()), init)
 }
